@@ -208,6 +208,27 @@ def gen_model(rng, *, min_states=1, max_states=5, max_params=5, min_events=0, ma
         lims = []
         for _ in decl_states:
             lims.append(rng.choice([None, (0, None), (None, None), (0, rng.randint(20, 60)), (None, rng.randint(30, 80)), (1, None)]))
+    abstract = {"decl_states": decl_states, "states": states, "params": params, "derived": derived, "procs": procs,
+                "odes": odes, "lims": lims}
+    return make_spec(rng, abstract, routes)
+
+
+def process_as_ode_terms(proc):
+    """the same process written as explicit ODE terms: -m*r at the origin, +m*r at the destination"""
+    out = []
+    for tr in proc["transitions"]:
+        term = E.mul(tr["mag"], proc["rate"])
+        if tr["type"] in ("T", "D"):
+            out.append({"state": tr["origin"], "expr": E.neg(term)})
+        if tr["type"] in ("T", "B"):
+            out.append({"state": tr["dest"], "expr": term})
+    return out
+
+
+def make_spec(rng, abstract, routes=ALL_ROUTES, shuffle=False, as_ode_prob=0.0, member_eq_prob=0.0):
+    """turn an abstract model (process set) into an API-level spec by choosing a route per process"""
+    decl_states, params, derived = abstract["decl_states"], abstract["params"], abstract["derived"]
+    procs, odes, lims = list(abstract["procs"]), list(abstract["odes"]), abstract["lims"]
     spec = {
         "state": gen_decl(rng, decl_states, lims),
         "param": gen_decl(rng, params),
@@ -215,22 +236,40 @@ def gen_model(rng, *, min_states=1, max_states=5, max_params=5, min_events=0, ma
         "ctor": {"event": [], "transition": [], "birth_death": [], "ode": []},
         "then": [],
     }
+    if shuffle:
+        rng.shuffle(procs)
+        rng.shuffle(odes)
     route_names = []
+    extra_odes = []
     for p in procs:
+        if as_ode_prob and rng.random() < as_ode_prob:
+            route_names.append("as_ode")
+            extra_odes += process_as_ode_terms(p)
+            continue
+        if member_eq_prob and len(p["transitions"]) > 1 and rng.random() < member_eq_prob:
+            # documented input form 4 of Event: several transitions, exactly one carries the equation, no rate
+            k = rng.randrange(len(p["transitions"]))
+            ev = {"rate": None, "transitions": [transition_json(t, p["rate"] if i == k else None) for i, t in enumerate(p["transitions"])]}
+            route_names.append("event_member_eq")
+            if "incremental" in routes and rng.random() < 0.35:
+                spec["then"].append(dict(op="add_event", **ev))
+            else:
+                spec["ctor"]["event"].append(ev)
+            continue
         r, (where, payload) = route_process(rng, p, routes)
         route_names.append(r)
         if where == "then":
             spec["then"].append(payload)
         else:
             spec["ctor"][where].append(payload)
-    for o in odes:
+    for o in odes + extra_odes:
         tj = {"type": "ODE", "origin": o["state"], "dest": None, "mag": E.num(1), "eq": o["expr"]}
         if "incremental" in routes and rng.random() < 0.3:
             spec["then"].append({"op": "add_ode", "t": tj})
         else:
             spec["ctor"]["ode"].append(tj)
-    meta = {"states": states, "params": params, "derived": [d[0] for d in derived], "procs": procs, "odes": odes,
-            "routes": route_names, "kinds": [p["kind"] for p in procs]}
+    meta = {"states": abstract["states"], "params": params, "derived": [d[0] for d in derived], "procs": procs, "odes": odes,
+            "routes": route_names, "kinds": [p["kind"] for p in procs], "abstract": abstract}
     return spec, meta
 
 
